@@ -140,6 +140,15 @@ func (c *Ctx) Violate(sig, detail string, files map[string]string) {
 		c.Count("violations_dropped", 1)
 		return
 	}
+	for _, v := range c.res.Violations {
+		if v.Sig == sig {
+			files = nil // keep the files of the first occurrence only
+			if len(detail) > 2000 {
+				detail = detail[:2000]
+			}
+			break
+		}
+	}
 	c.res.Violations = append(c.res.Violations, Violation{Sig: sig, Detail: detail, Files: files, Case: c.Case})
 }
 
@@ -774,6 +783,11 @@ func firstLines(s string, n int) string {
 	ls := strings.Split(s, "\n")
 	if len(ls) > n {
 		ls = ls[:n]
+	}
+	for i, l := range ls {
+		if len(l) > 300 {
+			ls[i] = l[:300] + "..."
+		}
 	}
 	return strings.Join(ls, "\n  ")
 }
